@@ -34,12 +34,12 @@ var propSpecs = []propSpec{
 		id: "C02",
 		runs: []runSpec{
 			{dir: "mux", entry: "ZZC02",
-				quick:    []int{1718508, 466008, 2371808, 2733308, 3464008, 2060008, 3828308, 4719308, 3001308, 5410308, 391808, 366308, 1038508, 653008, 4558408, 413908},
-				thorough: []int{1718510, 466010, 2371810, 2733310, 3464010, 2060010, 3828310, 4719310, 3001310, 5410310, 391810, 366310, 1038510, 653010, 4558410, 413910}},
+				quick:    []int{8, 108, 208, 308, 408, 508, 608, 708, 808, 908, 1008, 1108, 1208, 1308, 1408, 1508, 1608, 1708, 1908, 2008, 2108, 2308, 2408, 2508, 2608, 2708},
+				thorough: []int{10, 110, 210, 310, 410, 510, 610, 710, 810, 910, 1010, 1110, 1210, 1310, 1410, 1510, 1610, 1710, 1806, 1910, 2010, 2110, 2208, 2310, 2410, 2510, 2610, 2710}},
 		},
 		covers:  []string{"404", "matched", "matched-with-params"},
-		bounds:  "request path: every byte string of length <= 8; 16 add-only route tables (8 selections of 3-4 patterns from a 15-pattern pool plus a 6-literal-sibling bundle, each in two registration orders); reference = a resolver over the pattern strings that never builds a tree and returns the set of admissible outcomes",
-		boundsT: "as quick, request path length <= 10",
+		bounds:  "request path: every byte string of length <= 8; 26 add-only route tables (8 selections of 3-4 patterns from a 15-pattern pool plus a 6-literal-sibling bundle, each in two registration orders; 6 tables aimed at the first-byte index with a failing indexed literal, deep literal splits, one parameter with several suffixes, endpoint vs continuing parameters); reference = a resolver over the pattern strings that never builds a tree and returns the set of admissible outcomes",
+		boundsT: "as quick with request path length <= 10, plus a table with four parameter kinds among >=5 children (length <= 6) and one with the three bundled interceptors at one position (length <= 8)",
 		outside: "longer paths; other tables; regexp rules whose alphabet overlaps the first byte of the literal that follows them; user-defined interceptors; paths \"\" and \"*\"",
 		assume:  []string{"patterns are well-formed", "method GET only (method handling is C01/C03/C08)"},
 		stubs:   stdStubs,
@@ -112,10 +112,10 @@ var propSpecs = []propSpec{
 		id: "C09",
 		runs: []runSpec{
 			{dir: "mux", entry: "ZZC09", quick: []int{1, 2, 3, 103}, thorough: []int{1, 2, 3, 4, 104}, mapRev: true},
-			{dir: "mux", entry: "ZZC09Grp", quick: []int{2, 3, 4}, thorough: []int{2, 3, 4, 5, 6}},
+			{dir: "mux", entry: "ZZC09Grp", quick: []int{2, 3, 4, 5}, thorough: []int{2, 3, 4, 5, 6}},
 		},
 		covers:  []string{"program", "use-and-routes", "group-program", "group-router-A", "group-router-B"},
-		bounds:  "every program of <= 3 calls from 9 operations (Use with 1 or 2 middlewares, Handle with 2 route middlewares, Post without, Prefix with 2 + route middleware, nested Prefix.Prefix, Resource (GET with and POST without route middleware), Prefix.Resource, Any), with and without WithTrace and in both map iteration orders; every group program of <= 4 calls from 6 operations (Group.Use, Group.New, Group.Add of a router with its own Use and route, Handle, router Use, Prefix(\"\").Post); then every handler kind of every route (methods, HEAD, OPTIONS, 405, 404, OPTIONS *, TRACE, group not-found) is invoked and its middleware chain, factory arguments and the factory invocation count are compared with the documented order computed from the program text",
+		bounds:  "every program of <= 3 calls from 9 operations (Use with 1 or 2 middlewares, Handle with 2 route middlewares, Post without, Prefix with 2 + route middleware, nested Prefix.Prefix, Resource (GET with and POST without route middleware), Prefix.Resource, Any), with and without WithTrace and in both map iteration orders; every group program of <= 5 calls from 6 operations (Group.Use, Group.New, Group.Add of a router with its own Use and route, Handle, router Use, Prefix(\"\").Post); then every handler kind of every route (methods, HEAD, OPTIONS, 405, 404, OPTIONS *, TRACE, group not-found) is invoked and its middleware chain, factory arguments and the factory invocation count are compared with the documented order computed from the program text",
 		boundsT: "programs of <= 4 calls, group programs of <= 6 calls",
 		outside: "longer programs; removal of routes between Use calls; this property has no data dimension: the verdict is an exhaustive bounded exploration of the real SSA by forking on operation selectors, the solver only confirms path feasibility",
 		stubs:   stdStubs,
@@ -135,11 +135,11 @@ var propSpecs = []propSpec{
 	{
 		id: "C11",
 		runs: []runSpec{
-			{dir: "mux", entry: "ZZC11", quick: []int{10001, 10101, 10203, 10303, 11001, 11101, 11203, 11303, 12001, 12101, 12203, 12303, 13001, 13101, 13203, 13303, 14001, 14101, 14203, 14303, 15001, 16001},
-				thorough: []int{10002, 10102, 10205, 10305, 11002, 11102, 11205, 11305, 12002, 12102, 12205, 12305, 13002, 13102, 13205, 13305, 14002, 14102, 14205, 14305, 15002, 16002}},
+			{dir: "mux", entry: "ZZC11", quick: []int{10001, 10101, 10203, 10303, 11001, 11101, 11203, 11303, 12001, 12101, 12203, 12303, 13001, 13101, 13203, 13303, 14001, 14101, 14203, 14303, 15001, 16001, 12403, 13403},
+				thorough: []int{10002, 10102, 10205, 10305, 11002, 11102, 11205, 11305, 12002, 12102, 12205, 12305, 13002, 13102, 13205, 13305, 14002, 14102, 14205, 14305, 15002, 16002, 12405, 13405}},
 		},
 		covers:  []string{"deny", "404-405", "preflight-unserved-method", "preflight-disallowed-header"},
-		bounds:  "WithCORS with 5 origin lists x 4 allow-header lists, plus WithAllowedCORS and WithDenyCORS, x 3 (exposed, credentials, max-age) settings with max-age a symbolic int in [1,99999]; requests: GET/HEAD/POST/OPTIONS/empty method on a live route, OPTIONS *, an unknown path; Origin absent or every string of <= 2 bytes (so it can equal a configured origin); Access-Control-Request-Method absent / GET / PUT / every string of <= 3 bytes; Access-Control-Request-Headers absent, 4 fixed spellings (lower case, lists, mixed case with spaces) and every string of <= 3 visible-ASCII/HTAB bytes (<= 1 for the configurations without an allow-list); reference: own list parser (split on ',', trim OWS, ASCII case-insensitive)",
+		bounds:  "WithCORS with 5 origin lists x 4 allow-header lists (and a mixed-case two-name list on two origin lists), plus WithAllowedCORS and WithDenyCORS, x 3 (exposed, credentials, max-age) settings with max-age a symbolic int in [1,99999]; requests: GET/HEAD/POST/OPTIONS/empty method on a live route, OPTIONS *, an unknown path; Origin absent or every string of <= 2 bytes (so it can equal a configured origin); Access-Control-Request-Method absent / GET / PUT / every string of <= 3 bytes; Access-Control-Request-Headers absent, 4 fixed spellings (lower case, lists, mixed case with spaces) and every string of <= 3 visible-ASCII/HTAB bytes (<= 1 for the configurations without an allow-list); reference: own list parser (split on ',', trim OWS, ASCII case-insensitive)",
 		boundsT: "free Access-Control-Request-Headers <= 5 bytes",
 		outside: "header values with bytes outside visible ASCII / HTAB; longer free header values; origins longer than 2 bytes",
 		stubs:   append(append([]string{}, stdStubs...), "strings.TrimSpace: byte-wise model exact for ASCII; strconv.Itoa on the symbolic max-age: digit-wise model"),
@@ -147,8 +147,8 @@ var propSpecs = []propSpec{
 	{
 		id: "C12",
 		runs: []runSpec{
-			{dir: "mux", entry: "ZZC11", quick: []int{21001, 21101, 21203, 21303, 22001, 22101, 22203, 22303, 23001, 23101, 23203, 23303, 24001, 24101, 24203, 24303, 25001},
-				thorough: []int{21002, 21102, 21205, 21305, 22002, 22102, 22205, 22305, 23002, 23102, 23205, 23305, 24002, 24102, 24205, 24305, 25002}},
+			{dir: "mux", entry: "ZZC11", quick: []int{21001, 21101, 21203, 21303, 22001, 22101, 22203, 22303, 23001, 23101, 23203, 23303, 24001, 24101, 24203, 24303, 25001, 22403, 23403},
+				thorough: []int{21002, 21102, 21205, 21305, 22002, 22102, 22205, 22305, 23002, 23102, 23205, 23305, 24002, 24102, 24205, 24305, 25002, 22405, 23405}},
 		},
 		covers:  []string{"grant", "preflight-grant", "not-a-preflight"},
 		bounds:  "as C11 restricted to the 4 non-empty origin lists; asserted: Allow-Origin/Credentials/Expose-Headers exactly as configured for allowed origins, Allow-Methods = the route's Allow set, Allow-Headers and Max-Age (symbolic int, compared through strconv.Itoa) on accepted preflights only, Vary naming Origin / Access-Control-Request-Method / Access-Control-Request-Headers",
